@@ -158,7 +158,46 @@ def setup_stmts():
                 "cdt": "date '2020-01-0%d'" % k, "cts": "epoch(%d)" % k, "civ": "interval '%d day'" % k, "cbin": "'a%d'" % k}
         stmts.append("insert into t values (%s)" % ", ".join(str(vals[n]) for n, _, _ in COLS))
     stmts.append("insert into t values (%s)" % ", ".join("epoch(cast(null as bigint))" if n == "cts" else "null" for n, _, _ in COLS))
+    # identifiers with upper-case letters: unquoted mixed case, quoted mixed case, quoted with a space / non-ASCII,
+    # two columns that differ only in case
+    stmts.append('create temp table Tm (OrderId int, "unitPrice" double, "Line Total" int, "Größe" text, "a" int, "A" int)')
+    stmts.append("insert into Tm values (1, 2.5, 3, 'x', 4, 5), (2, 3.5, 4, 'y', 6, 7)")
     return stmts
+
+
+# the announced name of an output column (what DESCRIBE and the result schema must both show, character for
+# character): a bare column reference -> the column's name AS DECLARED (whatever case the reference is written in);
+# an alias -> the alias as written (quoted or not, case kept); a function call -> the function's lower-case name;
+# any other expression -> ?column?; a column list of a CTE / derived table / table function alias renames in order
+NAME_EXPECT = {
+    'select * from Tm': ["OrderId", "unitPrice", "Line Total", "Größe", "a", "A"],
+    'select OrderId, orderid, ORDERID, "unitPrice", "Line Total", "Größe", "a", "A" from Tm': ["OrderId", "OrderId", "OrderId", "unitPrice", "Line Total", "Größe", "a", "A"],
+    'select OrderId, "unitPrice" * 2 AS LineTotal, orderid as "Mixed Alias", "Line Total" + 1, "Größe" as "Ünï Code", OrderId AS oRDER from Tm':
+        ["OrderId", "LineTotal", "Mixed Alias", "?column?", "Ünï Code", "oRDER"],
+    'select X.OrderId, X."unitPrice" as "unitprice", x."A" as Aa, X."a" from Tm X': ["OrderId", "unitprice", "Aa", "a"],
+    'select S.OrderId, s."unitPrice" from Tm S': ["OrderId", "unitPrice"],
+    'with C(Xa, "yB") as (select OrderId, "unitPrice" from Tm) select * from C': ["Xa", "yB"],
+    'with C(Xa, "yB") as (select OrderId, "unitPrice" from Tm) select xa, "yB" as YB, XA + 1 as "xa" from C': ["Xa", "YB", "xa"],
+    'with MyCte as (select OrderId as "Order Id", "Größe" from Tm) select * from mycte': ["Order Id", "Größe"],
+    'select * from (select OrderId, "unitPrice" from Tm) S(Aa, "b C")': ["Aa", "b C"],
+    'select aa, "b C" as "B c" from (select OrderId, "unitPrice" from Tm) S(Aa, "b C")': ["Aa", "B c"],
+    'select * from generate_series(1, 2) G(Val)': ["Val"],
+    'select val as VAL, G.Val from generate_series(1, 2) G(Val)': ["VAL", "Val"],
+    'select * from generate_series(1, 2) "Gen Ser"("The Value")': ["The Value"],
+    'select Sum(OrderId), COUNT(*), Max("Größe"), MIN("a") as "Min A" from Tm': ["sum", "count", "max", "Min A"],
+    'select Upper("Größe"), ABS(OrderId) as AbsId, Length("Größe") + 1 from Tm': ["upper", "AbsId", "?column?"],
+    'select "Größe", count(*) as "N Rows" from Tm group by "Größe"': ["Größe", "N Rows"],
+    'select OrderId from Tm union all select "A" from Tm': ["OrderId"],
+    'select "A" as "Left Name" from Tm union select OrderId as other from Tm': ["Left Name"],
+    'select OrderId as "Id", "a" from Tm order by "Id" limit 1': ["Id", "a"],
+    'select distinct "A", "a" as "AA" from Tm': ["A", "AA"],
+    'select (select max("A") from Tm) as "Sub Q", exists (select 1 from Tm) as EX from Tm': ["Sub Q", "EX"],
+    'select t1."a", T2."A" from Tm t1 join Tm T2 on t1.OrderId = T2.ORDERID': ["a", "A"],
+    'select "a", "A", "a" as X, "A" as y from Tm': ["a", "A", "X", "y"],
+}
+# table-level DESCRIBE against the schema of SELECT *
+DESCRIBE_OBJECTS = [("describe Tm", "select * from Tm"), ("describe generate_series(1, 2)", "select * from generate_series(1, 2)"),
+                    ('describe (select OrderId as "Order Id" from Tm)', 'select OrderId as "Order Id" from Tm')]
 
 
 def gen_exprs(ctx, rng, d):
@@ -257,6 +296,7 @@ def gen_exprs(ctx, rng, d):
             "select cb, avg(ci8), sum(cd1), min(ct), max(cdt), count(cts) from t group by cb",
             "insert into t (ci8) values (9)", "create temp table t2 as select ci8 + cd1 as x, ct from t", "select * from t2",
             "describe t2", "explain select 1", "show tables", "select * from generate_series(1, 3)", "select * from unnest([1, 2, 3])"]
+    stm += list(NAME_EXPECT) + [q for _, q in DESCRIBE_OBJECTS]
     return ex, agg, stm
 
 
@@ -438,6 +478,11 @@ def stage_sql(ctx, rng, d, gverif, gmodel):
             checked += 1
             if rr.get("ok"):
                 schema_by_stmt.setdefault(x, set()).add(json.dumps(rr["schema"]))
+                if NAME_EXPECT.get(x) is not None and [c0[0] for c0 in rr["schema"]] != NAME_EXPECT[x]:
+                    results.setdefault((x, "output column names differ from the announced-name rule (raw case of declarations and aliases)"), []).append(
+                        (cfg, dr, dict(rr, expected_names=NAME_EXPECT[x])))
+            elif x in NAME_EXPECT and not p:
+                results.setdefault((x, "a statement over mixed-case identifiers fails"), []).append((cfg, dr, rr))
             if p == "not-produced":
                 kk = classify(x, "exec-error-after-describe", rr)
                 if kk:
@@ -496,6 +541,15 @@ def stage_sql(ctx, rng, d, gverif, gmodel):
             bad = [bt for bt in rr.get("batch_types", []) if bt != want]
             if bad or "value_err" in rr:
                 results.setdefault((x, "a produced batch's array types differ from the announced schema"), []).append((cfg0, None, rr))
+    # DESCRIBE <table | table function | (query)> against the schema of the corresponding SELECT
+    dres = run_stmts(gverif, setup, pre_of(cfg0), [a0 for a0, _ in DESCRIBE_OBJECTS] + [b0 for _, b0 in DESCRIBE_OBJECTS], chunk=50)
+    for i, (da, qb) in enumerate(DESCRIBE_OBJECTS):
+        checked += 1
+        ds0, rb = desc_schema(dres[i]), dres[len(DESCRIBE_OBJECTS) + i]
+        if not isinstance(ds0, list) or not rb.get("ok"):
+            viol.append({"kind": "DESCRIBE of a table / table function / query fails", "sql": da, "stmts": setup + [da, qb], "result": str(dres[i])[:200] + str(rb)[:200]})
+        elif ds0 != [list(c0) for c0 in rb["schema"]]:
+            viol.append({"kind": "DESCRIBE differs from the result's output schema", "sql": da, "stmts": setup + [da, qb], "describe": ds0, "result": {"schema": rb["schema"]}})
     info["statements"] = len(final) + len(stm)
     # the same statement must get the same schema in every configuration
     for x, schs in schema_by_stmt.items():
@@ -509,7 +563,7 @@ def stage_sql(ctx, rng, d, gverif, gmodel):
             continue
         rep = {"kind": p, "sql": x, "stmts": setup + ([] if cfg is None else pre_of(cfg)) + ["describe " + x, x],
                "configs": [c for c, _, _ in occ], "describe": desc_schema(dr) if dr else None,
-               "result": {k2: v for k2, v in rr.items() if k2 in ("schema", "batch_types", "value_err", "err", "panic", "phase", "schemas", "abort")}}
+               "result": {k2: v for k2, v in rr.items() if k2 in ("schema", "batch_types", "value_err", "err", "panic", "phase", "schemas", "abort", "expected_names")}}
         viol.append(rep)
     # --- set-operation output types against the extracted unify_cols
     names = d["type_ids"]
